@@ -169,13 +169,14 @@ class Tokenizer:
                 line = tok.line
                 if tok.end[0] > tok.start[0]:
                     # the line of a multi-line token holds several physical lines
-                    line = line.splitlines(keepends=True)[0]
+                    line = line[: line.find("\n") + 1] or line
                 # one-line form: the text starts after the colon, on the first captured line only
                 lines[tok.start[0]] = line if (is_indented or lines) else line[tok.start[1] :]
             if tok.end[0] > tok.start[0]:
                 # a multi-line token (string) also covers the lines between its first and its last one
-                for i, text in enumerate(tok.string.splitlines(keepends=True)[1:-1], 1):
-                    lines.setdefault(tok.start[0] + i, text)
+                # (lines end at "\n" only: a form feed or U+2028 inside a string is ordinary text)
+                for i, text in enumerate(tok.string.split("\n")[1 : tok.end[0] - tok.start[0]], 1):
+                    lines.setdefault(tok.start[0] + i, text + "\n")
 
         string = "".join(lines.values())
         if is_indented:
